@@ -201,6 +201,9 @@ pub struct RunCfg {
     pub lin: u32,
     /// quarantine allocator (UAF oracle, poison) on/off
     pub quarantine: bool,
+    /// raise signal 7 when a cascade reclaims a node at this depth (0 = off): lets a template
+    /// place an action in the middle of a long cascade
+    pub signal_depth: u32,
 }
 
 impl Default for RunCfg {
@@ -224,6 +227,7 @@ impl Default for RunCfg {
             janitor_rounds: 0,
             lin: 0,
             quarantine: true,
+            signal_depth: 0,
         }
     }
 }
@@ -248,6 +252,9 @@ impl RunCfg {
             .set("janitor_rounds", self.janitor_rounds)
             .set("lin", self.lin)
             .set("quarantine", self.quarantine);
+        if self.signal_depth != 0 {
+            j.put("signal_depth", self.signal_depth);
+        }
         if let Some(s) = &self.stall {
             j.put("stall", J::obj().set("victim", s.victim).set("site", s.site).set("nth", s.nth).set("k", s.k).set("release_signal", s.release_signal));
         }
@@ -273,6 +280,7 @@ impl RunCfg {
             janitor_rounds: j.getu("janitor_rounds") as u32,
             lin: j.getu("lin") as u32,
             quarantine: j.get("quarantine").and_then(|x| x.as_bool()).unwrap_or(true),
+            signal_depth: j.getu("signal_depth") as u32,
         }
     }
 }
